@@ -252,7 +252,8 @@ func (msg *MessageAuth) FromBytes(src []byte) error {
 		return ErrNotEnoughSourceBytes
 	}
 
-	p, q := 0, l/(MessageChunkBytesMax+2)+1
+	// the number of chunks: every chunk but the last one is full (a full chunk may also be the last one)
+	p, q := 0, (l+MessageChunkBytesMax+1)/(MessageChunkBytesMax+2)
 	chunks := make([]*MessageChunk, 0, q)
 	var chunk *MessageChunk
 	for i := 0; i < q; i++ {
